@@ -24,7 +24,11 @@ fn main() {
             "wal" => wal_engine.get_or_insert_with(wal::WalEngine::new).cmd(&toks[1..]),
             "ck" => ck::cmd(&toks[1..]),
             "e2" => {
-                if toks.len() > 1 && toks[1] == "new" {
+                if toks.len() > 2 && toks[1] == "newat" {
+                    e2_engine = None;
+                    e2_engine = Some(e2::E2::at(toks[2]));
+                    "ok".to_string()
+                } else if toks.len() > 1 && toks[1] == "new" {
                     e2_engine = None; // closes the previous store and removes its directory
                     e2_engine = Some(e2::E2::new());
                     "ok".to_string()
@@ -42,6 +46,7 @@ fn main() {
             }
         };
         writeln!(out, "{}", s).unwrap();
+        out.flush().unwrap();
     }
     out.flush().unwrap();
 }
